@@ -1,5 +1,5 @@
 """C18 — card identity is a fixed function of the data the terminal reports."""
-from .. import vlib, layouts, client_cases as cc
+from .. import vlib, layouts, spec, client_cases as cc
 from ..common import proof_part, report_diffs
 from .c07 import TB, run_scenarios, judge
 
@@ -8,7 +8,7 @@ def check(run):
     proof_part(run, "C18")
     rng, th = run.rng, run.tier == "thorough"
     S = cc.Spec()
-    known = {e[0]: e[2] for e in layouts.load()["error_table"]}
+    known = spec.result_codes()          # the specification's table, not the code's
     scs = []
 
     def scenario(replies, expect, finding_class=None):
